@@ -36,6 +36,8 @@ ErrCount(s) == Cardinality({ i \in 1..Len(s) : s[i] # "mark" })
 SlotsA == { s \in [1..6 -> Slot] : ErrCount(s) <= 2 }
 
 CONSTANT Together     \* TRUE: both scripts in run 1 (scheduled, all interleavings); FALSE: a in run 1, b in run 2
+CONSTANTS RunIsEval,        \* TRUE: the "runs" are expression evaluations by the embedder (runtime::evaluate_expression, what __EVAL uses)
+          EvalStopsAtError  \* TRUE ideal; FALSE: the evaluation loop ignores that execute_do reported an unhandled error and goes on
 
 VARIABLES prog,       \* [a |-> items, b |-> items]
           pc, via, ended, flag, mon, run, phase
@@ -68,10 +70,16 @@ RunEndOK == /\ phase = "running" /\ \A f \in Files : InRun(f) => ended[f]
             /\ phase' = "idle" /\ mon' = Feed(mon, << [t |-> "RunEnd", res |-> "empty"] >>)
             /\ UNCHANGED <<prog, pc, via, ended, flag, run>>
 
+Advance(f) == IF pc[f] + 1 > Len(prog[f]) THEN /\ ended' = [ended EXCEPT ![f] = TRUE] /\ pc' = [pc EXCEPT ![f] = pc[f] + 1]
+              ELSE /\ pc' = [pc EXCEPT ![f] = pc[f] + 1] /\ UNCHANGED ended
+
 \* notice the flag while script f is at item it: unwind to the nearest handler or fail the run
 Notice(f, it, evs) ==
     LET h == Innermost(it.hs) IN
-    IF h = NoH
+    IF h = NoH /\ RunIsEval /\ ~EvalStopsAtError
+    THEN /\ mon' = Feed(mon, evs \o << [t |-> "Trace", file |-> f, line |-> it.line] >>)      \* reported, and then the next statement executes
+         /\ flag' = FALSE /\ Advance(f) /\ UNCHANGED <<via, phase>>
+    ELSE IF h = NoH
     THEN /\ mon' = Feed(mon, evs \o << [t |-> "Trace", file |-> f, line |-> it.line], [t |-> "RunEnd", res |-> "runtime_error"] >>)
          /\ flag' = FALSE /\ phase' = "idle"
          /\ ended' = [g \in Files |-> IF InRun(g) THEN TRUE ELSE ended[g]]     \* the embedder aborts: all scripts of the run are discarded
@@ -79,9 +87,6 @@ Notice(f, it, evs) ==
     ELSE /\ mon' = Feed(mon, evs) /\ flag' = FALSE
          /\ pc' = [pc EXCEPT ![f] = Hd(f)[h].start] /\ via' = [via EXCEPT ![f] = TRUE]
          /\ UNCHANGED <<ended, phase>>
-
-Advance(f) == IF pc[f] + 1 > Len(prog[f]) THEN /\ ended' = [ended EXCEPT ![f] = TRUE] /\ pc' = [pc EXCEPT ![f] = pc[f] + 1]
-              ELSE /\ pc' = [pc EXCEPT ![f] = pc[f] + 1] /\ UNCHANGED ended
 
 Exec(f) ==
     /\ phase = "running" /\ InRun(f) /\ ~ended[f]
